@@ -41,9 +41,13 @@ pub fn nested_run(mode: u8) {
         isa::enc(&v)
     });
     let eng = match mode { 1 => Eng::Interp, 2 => Eng::Jit, _ => Eng::Cl };
+    // the instruction budget is per thread: the nested run must not eat the outer run's
+    let outer = rbpf::verif_hooks::insn_budget();
+    rbpf::verif_hooks::set_insn_budget(None);
     let mut v = AnyVm::new_plain(VmKind::NoData, Some(prog)).expect("nested load");
     v.compile(eng).expect("nested compile");
     let r = v.exec(eng, vm::empty_raw(), vm::empty_raw());
+    rbpf::verif_hooks::set_insn_budget(outer);
     assert_eq!(r, Ok(7), "nested execution");
 }
 
@@ -623,8 +627,13 @@ pub struct C07Case {
     /// the VM is created with another program, the calculator is registered, and only then the
     /// program under test is loaded with set_program
     /// 0: program given to new(); 1: another program first, then the calculator, then set_program;
-    /// 2: new(None), then the calculator, then set_program
+    /// 2: new(None), then the calculator, then set_program;
+    /// 3: program given to new(), the calculator, then a set_program that the verifier refuses (a
+    /// program with local calls at other places) - the loaded program must run as before
     pub reload: u8,
+    /// never-executed filler instructions after every function (between caller and callee): call
+    /// displacements beyond 16 bits
+    pub pad: u32,
 }
 
 pub fn c07_program(c: &C07Case) -> Vec<I> {
@@ -781,6 +790,19 @@ pub fn c07_program(c: &C07Case) -> Vec<I> {
         start[*i] = pos;
         pos += funcs[*i].len();
     }
+    // padding: filler after every function (never executed)
+    if c.pad > 0 {
+        for f in funcs.iter_mut() {
+            for _ in 0..c.pad {
+                f.push(isa::mov64i(0, 0x7a7a));
+            }
+        }
+        let mut pos = funcs[0].len();
+        for i in &order {
+            start[*i] = pos;
+            pos += funcs[*i].len();
+        }
+    }
     let mut prog: Vec<I> = vec![];
     let mut placed: Vec<usize> = vec![0];
     placed.extend(order.iter());
@@ -795,13 +817,16 @@ pub fn c07_program(c: &C07Case) -> Vec<I> {
             prog.push(x);
         }
     }
+    if c.pad > 0 {
+        prog.push(isa::EXIT); // the filler after the last function must not be the program's end
+    }
     prog
 }
 
 fn c07_check(s: &mut Sink, eng: Eng, c: &C07Case) {
     let prog = c07_program(c);
     let bytes = isa::enc(&prog);
-    let rp = json!({"kind":"local-call","eng":eng.name(),"depth":c.depth,"reversed":c.reversed,"body":c.body,"recursive":c.recursive,"vsel":c.vsel,"twice":c.twice,"ld_before_call":c.ld_before_call,"reload":c.reload,
+    let rp = json!({"kind":"local-call","eng":eng.name(),"depth":c.depth,"reversed":c.reversed,"body":c.body,"recursive":c.recursive,"vsel":c.vsel,"twice":c.twice,"ld_before_call":c.ld_before_call,"reload":c.reload,"pad":c.pad,
                     "calc": match c.calc { Calc::None => json!("none"), Calc::Const(v) => json!(v), Calc::PcDep => json!("pc"), Calc::ProgDep => json!("prog") }});
     let class = format!("{}{}{}", if c.recursive { "recursion" } else if c.twice { "tree" } else { "chain" }, if c.reversed { "-backward" } else { "" }, match c.calc { Calc::None => "", Calc::PcDep => "+calc(pc)", Calc::ProgDep => "+calc(prog)", Calc::Const(_) => "+calc" });
     s.count("evaluations", 1);
@@ -834,7 +859,10 @@ fn c07_check(s: &mut Sink, eng: Eng, c: &C07Case) {
         return;
     }
     let other = isa::enc(&[isa::mov64i(0, 0), isa::EXIT]);
-    let mut vmx = match AnyVm::new(kind, match c.reload { 0 => Some(&bytes[..]), 1 => Some(&other[..]), _ => None }) {
+    // a program the default verifier refuses only at its end (no final exit), with local calls whose
+    // targets lie elsewhere than the loaded program's
+    let refused = isa::enc(&[isa::call_local(3), isa::call_local(1), isa::EXIT, isa::call_local(1), isa::mov64i(0, 1), isa::EXIT, isa::mov64i(0, 2)]);
+    let mut vmx = match AnyVm::new(kind, match c.reload { 0 | 3 => Some(&bytes[..]), 1 => Some(&other[..]), _ => None }) {
         Ok(v) => v,
         Err(e) => {
             s.violation(&format!("verifier/{class}/rejects-template"), e, rp.clone());
@@ -855,7 +883,12 @@ fn c07_check(s: &mut Sink, eng: Eng, c: &C07Case) {
             }
         }
     }
-    if c.reload != 0 {
+    if c.reload == 3 {
+        if vmx.set_program(&refused, (0, 0)).is_ok() {
+            s.violation(&format!("verifier/{class}/accepts-ill-formed"), "a program without a final exit was accepted by set_program".into(), rp.clone());
+            return;
+        }
+    } else if c.reload != 0 {
         if let Err(e) = vmx.set_program(&bytes, (0, 0)) {
             s.violation(&format!("verifier/{class}/rejects-template"), e, rp.clone());
             return;
@@ -924,29 +957,34 @@ fn c07_cases(thorough: bool) -> Vec<C07Case> {
                 for calc in &calcs {
                     let vs: Vec<u8> = if thorough { (0..31).collect() } else { vec![1, 22, 28] };
                     for vsel in vs {
-                        v.push(C07Case { depth, reversed, body, calc: *calc, recursive: false, vsel, twice: false, ld_before_call: 0, reload: 0 });
+                        v.push(C07Case { depth, reversed, body, calc: *calc, recursive: false, vsel, twice: false, ld_before_call: 0, reload: 0, pad: 0 });
                         if depth >= 1 && depth <= 4 && (thorough || vsel == 1) {
-                            v.push(C07Case { depth, reversed, body, calc: *calc, recursive: false, vsel, twice: true, ld_before_call: 0, reload: 0 });
+                            v.push(C07Case { depth, reversed, body, calc: *calc, recursive: false, vsel, twice: true, ld_before_call: 0, reload: 0, pad: 0 });
                         }
                         if depth >= 1 && (thorough || vsel == 1) {
                             // loaded with set_program after the calculator was registered
-                            v.push(C07Case { depth, reversed, body, calc: *calc, recursive: false, vsel, twice: false, ld_before_call: 0, reload: 1 });
-                            v.push(C07Case { depth, reversed, body, calc: *calc, recursive: false, vsel, twice: false, ld_before_call: 0, reload: 2 });
+                            v.push(C07Case { depth, reversed, body, calc: *calc, recursive: false, vsel, twice: false, ld_before_call: 0, reload: 1, pad: 0 });
+                            v.push(C07Case { depth, reversed, body, calc: *calc, recursive: false, vsel, twice: false, ld_before_call: 0, reload: 2, pad: 0 });
+                            v.push(C07Case { depth, reversed, body, calc: *calc, recursive: false, vsel, twice: false, ld_before_call: 0, reload: 3, pad: 0 });
+                            // functions 33,000 / 70,000 instructions apart (16-bit displacement limits)
+                            if depth <= 3 && body & 8 == 0 && matches!(calc, Calc::None | Calc::Const(64) | Calc::PcDep) {
+                                v.push(C07Case { depth, reversed, body, calc: *calc, recursive: false, vsel, twice: false, ld_before_call: 0, reload: 0, pad: if body & 1 == 0 { 33_000 } else { 70_000 } });
+                            }
                             // a packet load right before every call (bodies that leave r9 free)
                             if body & 9 == 0 {
                                 for ld in 1..=8u8 {
-                                    v.push(C07Case { depth, reversed, body, calc: *calc, recursive: false, vsel, twice: depth <= 3, ld_before_call: ld, reload: 0 });
+                                    v.push(C07Case { depth, reversed, body, calc: *calc, recursive: false, vsel, twice: depth <= 3, ld_before_call: ld, reload: 0, pad: 0 });
                                 }
                             }
                             // deep chains whose inner frames are never touched; callee-saved registers
                             // written by 32-bit instructions only
                             if body & 12 == 0 && body & 3 != 0 {
-                                v.push(C07Case { depth, reversed, body: body | 16, calc: *calc, recursive: false, vsel, twice: false, ld_before_call: 0, reload: 0 });
-                                v.push(C07Case { depth, reversed, body: body | 16, calc: *calc, recursive: false, vsel, twice: depth <= 3, ld_before_call: 0, reload: 0 });
+                                v.push(C07Case { depth, reversed, body: body | 16, calc: *calc, recursive: false, vsel, twice: false, ld_before_call: 0, reload: 0, pad: 0 });
+                                v.push(C07Case { depth, reversed, body: body | 16, calc: *calc, recursive: false, vsel, twice: depth <= 3, ld_before_call: 0, reload: 0, pad: 0 });
                             }
                             if body & 8 == 0 && body & 1 != 0 {
-                                v.push(C07Case { depth, reversed, body: body | 32, calc: *calc, recursive: false, vsel, twice: depth <= 3, ld_before_call: 0, reload: 0 });
-                                v.push(C07Case { depth, reversed, body: body | 64, calc: *calc, recursive: false, vsel, twice: depth <= 3, ld_before_call: 0, reload: 0 });
+                                v.push(C07Case { depth, reversed, body: body | 32, calc: *calc, recursive: false, vsel, twice: depth <= 3, ld_before_call: 0, reload: 0, pad: 0 });
+                                v.push(C07Case { depth, reversed, body: body | 64, calc: *calc, recursive: false, vsel, twice: depth <= 3, ld_before_call: 0, reload: 0, pad: 0 });
                             }
                         }
                     }
@@ -955,7 +993,7 @@ fn c07_cases(thorough: bool) -> Vec<C07Case> {
         }
         for body in 0..4u8 {
             for calc in &calcs {
-                v.push(C07Case { depth, reversed: true, body, calc: *calc, recursive: true, vsel: 5, twice: false, ld_before_call: 0, reload: 0 });
+                v.push(C07Case { depth, reversed: true, body, calc: *calc, recursive: true, vsel: 5, twice: false, ld_before_call: 0, reload: 0, pad: 0 });
             }
         }
     }
@@ -1002,7 +1040,7 @@ fn run_c07_on(s: &mut Sink, engines: &[Eng], g0: u64, with_meta: bool) {
             }
             for c in chunk {
                 let cc = *c;
-                let rp = json!({"kind":"local-call","eng":eng.name(),"depth":c.depth,"reversed":c.reversed,"body":c.body,"recursive":c.recursive,"vsel":c.vsel,"twice":c.twice,"ld_before_call":c.ld_before_call,"reload":c.reload,
+                let rp = json!({"kind":"local-call","eng":eng.name(),"depth":c.depth,"reversed":c.reversed,"body":c.body,"recursive":c.recursive,"vsel":c.vsel,"twice":c.twice,"ld_before_call":c.ld_before_call,"reload":c.reload,"pad":c.pad,
                     "calc": match c.calc { Calc::None => json!("none"), Calc::Const(v) => json!(v), Calc::PcDep => json!("pc"), Calc::ProgDep => json!("prog") }});
                 s.mark(idx, &format!("{}/local-call", eng.name()), &rp);
                 run_group(s, eng, "local-call", &rp, move |cs| c07_check(cs, eng, &cc));
@@ -1020,7 +1058,7 @@ pub fn replay_c07(v: &Value) -> Vec<String> {
         Value::String(_) => Calc::PcDep,
         x => Calc::Const(x.as_u64().unwrap() as u16),
     };
-    let c = C07Case { depth: v["depth"].as_u64().unwrap() as u8, reversed: v["reversed"].as_bool().unwrap(), body: v["body"].as_u64().unwrap() as u8, calc, recursive: v["recursive"].as_bool().unwrap(), vsel: v["vsel"].as_u64().unwrap() as u8, twice: v["twice"].as_bool().unwrap_or(false), ld_before_call: v["ld_before_call"].as_u64().unwrap_or(if v["ld_before_call"].as_bool().unwrap_or(false) { 1 } else { 0 }) as u8, reload: v["reload"].as_u64().unwrap_or(if v["reload"].as_bool().unwrap_or(false) { 1 } else { 0 }) as u8 };
+    let c = C07Case { depth: v["depth"].as_u64().unwrap() as u8, reversed: v["reversed"].as_bool().unwrap(), body: v["body"].as_u64().unwrap() as u8, calc, recursive: v["recursive"].as_bool().unwrap(), vsel: v["vsel"].as_u64().unwrap() as u8, twice: v["twice"].as_bool().unwrap_or(false), ld_before_call: v["ld_before_call"].as_u64().unwrap_or(if v["ld_before_call"].as_bool().unwrap_or(false) { 1 } else { 0 }) as u8, reload: v["reload"].as_u64().unwrap_or(if v["reload"].as_bool().unwrap_or(false) { 1 } else { 0 }) as u8, pad: v["pad"].as_u64().unwrap_or(0) as u32 };
     let mut s = Sink::new("replay", Tier::Quick, 0, 1, None, None, 3600);
     let rp = v.clone();
     run_group(&mut s, eng, "local-call", &rp, move |cs| c07_check(cs, eng, &c));
